@@ -6,6 +6,7 @@ import (
 	"math/rand"
 	"os"
 
+	"verif/harness/ref"
 	"verif/harness/world"
 )
 
@@ -45,7 +46,9 @@ func cmdNegotiate(args []string) int {
 		}
 		pairs = sel
 	}
-	offers := []string{"?OTR?", "?OTRv2?", "?OTRv3?", "?OTRv23?", "?OTR?v2?", "?OTR?v23?", "?OTRv4?", "?OTRv?", "?OTRv1?", "?OTRv234x?", "?OTRv32?", "?OTR?v?"}
+	offers := []string{"?OTR?", "?OTRv2?", "?OTRv3?", "?OTRv23?", "?OTR?v2?", "?OTR?v23?", "?OTRv4?", "?OTRv?", "?OTRv1?", "?OTRv234x?", "?OTRv32?", "?OTR?v?",
+		// the offer ends at the first '?' after the version list: digits and '?' in the text that follows are not versions
+		"?OTRv2? do you speak 3?", "?OTRv3? or only 2?", "?OTR?v3? 2?", "?OTRv2?\n<b>see otr 3</b>?", "?OTRv? 23?", "?OTR? v23?", "?OTRv2? 3"}
 	tags := [][]byte{
 		[]byte(" \t  \t\t\t\t \t \t \t  "),
 		[]byte(" \t  \t\t\t\t \t \t \t    \t\t  \t "),
@@ -119,6 +122,44 @@ func cmdNegotiate(args []string) int {
 		w.InjectRaw(w.P["B"], append(append([]byte{}, tx...), tg...))
 		drain(w, 24)
 		fin(w)
+		// (v) a stray key-exchange message (ignored: no exchange is under way; or for another instance)
+		// arrives before the negotiation; it must not decide anything
+		for k, st := range []struct {
+			v    int
+			kind string
+			rt   uint32
+		}{{2, "dhk", 0}, {3, "dhk", 0}, {3, "dhk", 0x55550001}, {2, "sig", 0}, {3, "rs", 0x55550002}, {2, "rs", 0}, {3, "sig", 0}} {
+			if (i+k)%3 != 0 && *sample > 0 {
+				continue
+			}
+			w := mk(pr, 0, 0, 30+k)
+			ev := newEvil(w, int64(i*16+k))
+			var body []byte
+			typ := byte(ref.TypeDHKey)
+			switch st.kind {
+			case "dhk":
+				body = (&ref.DHKey{Gy: ev.secret().Pub}).Bytes()
+			case "sig":
+				typ = ref.TypeSig
+				body = (&ref.Sig{EncSig: ev.bytes(80), MAC: ev.bytes(20)}).Bytes()
+			case "rs":
+				typ = ref.TypeRevealSig
+				body = (&ref.RevealSig{R: ev.bytes(16), EncSig: ev.bytes(80), MAC: ev.bytes(20)}).Bytes()
+			}
+			var stag uint32
+			if st.v == 3 {
+				stag = 0x0e0e0e0e
+			}
+			victim := []string{"A", "B"}[(i+k)%2]
+			w.ReceiveAttack(w.P[victim], [][]byte{ref.Armor(append(ref.BuildHeader(st.v, typ, stag, st.rt), body...))}, "stray/"+st.kind)
+			if k%2 == 0 {
+				w.Query(w.P["A"])
+			} else {
+				w.InjectRaw(w.P[victim], []byte([]string{"?OTRv23?", "?OTRv2?", "?OTRv3?"}[(i+k)%3]))
+			}
+			drain(w, 24)
+			fin(w)
+		}
 		// (iv) a first DH-Commit of a fixed version
 		for _, v := range []int{2, 3} {
 			if pr.a&(1<<(uint(v)-2)) == 0 {
